@@ -47,7 +47,20 @@ def claim_window_finished_workflow(sig, ctx) -> bool:
 
 
 def unbounded_transient(sig, ctx) -> bool:
-    return ctx["formula"] in sig["formulas"]
+    """The transient-retry budget is never reached: only for a task scripted to raise TransientError
+    at least as often as the documented limit allows (n >= 9), and only for the bound / the outcome."""
+    if ctx["formula"] not in sig["formulas"]:
+        return False
+    prog = ctx["program"]
+    over = [t["name"] for s in prog["stages"] for t in s["tasks"]
+            if t["k"] in ("transient", "transientNoCtx") and t["n"] >= 9]
+    if not over:
+        return False
+    if ctx["formula"] == "ORACLE":
+        return True
+    s = ctx.get("state") or {}
+    led = s.get("ledger")
+    return True if led is None else any(len(led.get(t, [])) > 10 for t in over)
 
 
 def late_branch_kill(sig, ctx) -> bool:
